@@ -3,6 +3,8 @@ package harness
 import (
 	"bytes"
 	"fmt"
+	"io"
+	"os"
 	"strings"
 	"testing"
 
@@ -240,9 +242,15 @@ type seg struct {
 	use      int
 	from, to int
 	junk     []byte
+	// pause: no bytes; at this point of the stream the reader's transport reports a timeout once
+	// (a read deadline expiring while the relay holds the rest back), then goes on
+	pause bool
 }
 
 func (s seg) String() string {
+	if s.pause {
+		return "p"
+	}
 	if s.junk != nil {
 		return fmt.Sprintf("j%d", len(s.junk))
 	}
@@ -280,9 +288,15 @@ func newC02Session(kk bool, lens []int, seed int) (*c02Session, error) {
 		s.hsBytes = append(s.hsBytes, c...)
 	}
 	for i, l := range lens {
-		p := patterned(l, 11*i+seed)
-		if l >= 2 {
-			p[0], p[1] = byte(i), byte(i>>8) // plaintexts identify their record
+		var p []byte
+		if l == craftedLen {
+			// a two byte plaintext that reads as the length prefix "2"
+			p = []byte{0x00, 0x02}
+		} else {
+			p = patterned(l, 11*i+seed)
+			if l >= 2 {
+				p[0], p[1] = byte(i), byte(i>>8) // plaintexts identify their record
+			}
 		}
 		h, b, err := writeRecord(cli.Machine, p)
 		if err != nil {
@@ -292,7 +306,11 @@ func newC02Session(kk bool, lens []int, seed int) (*c02Session, error) {
 		s.plains = append(s.plains, p)
 	}
 	for i := 0; i < len(lens); i++ {
-		h, b, err := writeRecord(srv.Machine, patterned(lens[i], 5*i))
+		ol := lens[i]
+		if ol == craftedLen {
+			ol = 2
+		}
+		h, b, err := writeRecord(srv.Machine, patterned(ol, 5*i))
 		if err != nil {
 			return nil, err
 		}
@@ -301,9 +319,59 @@ func newC02Session(kk bool, lens []int, seed int) (*c02Session, error) {
 	return s, nil
 }
 
+// craftedLen in a list of record lengths: a record of two bytes whose plaintext is 00 02
+const craftedLen = -2
+
+// pausingReader delivers data and reports a timeout once at each of the given offsets.
+type pausingReader struct {
+	data   []byte
+	pos    int
+	pauses map[int]bool
+}
+
+func (p *pausingReader) Len() int { return len(p.data) - p.pos }
+
+func (p *pausingReader) Read(b []byte) (int, error) {
+	if p.pauses[p.pos] {
+		delete(p.pauses, p.pos)
+		return 0, os.ErrDeadlineExceeded
+	}
+	if p.pos >= len(p.data) {
+		return 0, io.EOF
+	}
+	end := len(p.data)
+	for o := range p.pauses {
+		if o > p.pos && o < end {
+			end = o
+		}
+	}
+	n := copy(b, p.data[p.pos:end])
+	p.pos += n
+	return n, nil
+}
+
+func (s *c02Session) pausesOf(segs []seg) map[int]bool {
+	out := map[int]bool{}
+	pos := 0
+	for _, g := range segs {
+		switch {
+		case g.pause:
+			out[pos] = true
+		case g.junk != nil:
+			pos += len(g.junk)
+		default:
+			pos += g.to - g.from
+		}
+	}
+	return out
+}
+
 func (s *c02Session) bytesOf(segs []seg) []byte {
 	var out []byte
 	for _, g := range segs {
+		if g.pause {
+			continue
+		}
 		if g.junk != nil {
 			out = append(out, g.junk...)
 			continue
@@ -329,6 +397,9 @@ func (s *c02Session) coincidence(segs []seg) bool {
 	var data []byte
 	var org []origin
 	for _, g := range segs {
+		if g.pause {
+			continue
+		}
 		if g.junk != nil {
 			for _, b := range g.junk {
 				data = append(data, b)
@@ -389,17 +460,25 @@ func c02CaseMode(r *Recorder, kk bool, lens []int, mk func(s *c02Session, honest
 	if coinc {
 		r.Notes["value_coincidences_not_sent_to_model"] = fmt.Sprint(r.Notes["value_coincidences_not_sent_to_model"], " ", seed)
 	}
-	wire := bytes.NewReader(s.bytesOf(segs))
+	wire := &pausingReader{data: s.bytesOf(segs), pauses: s.pausesOf(segs)}
 	var results []string
 	var returned [][]byte
 	errs := 0
-	for wire.Len() > 0 && errs < 3 && len(results) < 2000 {
+	var pendingLen uint32
+	havePending := false
+	for (wire.Len() > 0 || len(wire.pauses) > 0) && errs < 3 && len(results) < 2000 {
 		var got []byte
 		var err error
 		if split {
-			var n uint32
-			if n, err = s.reader.ReadHeader(wire); err == nil {
-				got, err = s.reader.ReadBody(wire, make([]byte, n))
+			// a user of the split API who got a header keeps its length and asks for the body
+			// again after a failed ReadBody (the header is not on the wire a second time)
+			if !havePending {
+				pendingLen, err = s.reader.ReadHeader(wire)
+				havePending = err == nil
+			}
+			if havePending {
+				got, err = s.reader.ReadBody(wire, make([]byte, pendingLen))
+				havePending = err != nil
 			}
 		} else {
 			got, err = s.reader.ReadMessage(wire)
@@ -447,7 +526,13 @@ func c02CaseMode(r *Recorder, kk bool, lens []int, mk func(s *c02Session, honest
 	if segStr == "" {
 		segStr = "none"
 	}
-	lensStr := ints(lens)
+	mlens := append([]int(nil), lens...)
+	for i := range mlens {
+		if mlens[i] == craftedLen {
+			mlens[i] = 2
+		}
+	}
+	lensStr := ints(mlens)
 	if lensStr == "" {
 		lensStr = "none"
 	}
@@ -618,6 +703,40 @@ func TestC02(t *testing.T) {
 				w = append(w, seg{own: true, use: unit, from: off + 1, to: len(s.units[0][unit])})
 				return append(w, h[unit+1:]...)
 			}, "rotation-boundary-flip", unit*10+off)
+		}
+	}
+	// the relay controls timing too: a read deadline expires at a chosen point of the stream (the
+	// transport reports a timeout once and then goes on), the application asks again. Before any
+	// byte of a record: the retry must simply work. Inside a record the position is lost: whatever
+	// the reader does afterwards, it must not hand out anything but the records written, in order -
+	// also when the two byte plaintext of a record reads as a plausible length prefix
+	for _, lens := range [][]int{{craftedLen, 5, 3}, {2, 5, 3}, {5, craftedLen, 7, 2}, {0, 1, 40}} {
+		for rec := 0; rec < len(lens); rec++ {
+			ll := lens[rec]
+			if ll == craftedLen {
+				ll = 2
+			}
+			for _, at := range []int{0, 1, 17, 18, 19, 18 + ll + 15} {
+				lens, rec, at := lens, rec, at
+				if at > 18+ll+15 {
+					continue
+				}
+				c02Case(r, (rec+at)%2 == 0, lens, func(s *c02Session, h []seg) []seg {
+					u, off := 2*rec, at
+					if at >= 18 {
+						u, off = 2*rec+1, at-18
+					}
+					w := cloneSegs(h[:u])
+					if off > 0 {
+						w = append(w, seg{own: true, use: u, from: 0, to: off})
+					}
+					w = append(w, seg{pause: true})
+					if off < len(s.units[0][u]) {
+						w = append(w, seg{own: true, use: u, from: off, to: len(s.units[0][u])})
+					}
+					return append(w, h[u+1:]...)
+				}, "read-timeout", 1000*rec+at)
+			}
 		}
 	}
 	// the resynchronisation attempt that the sticky error must defeat
